@@ -467,6 +467,9 @@ impl OutstationSession {
         writer: &mut TransportWriter,
         database: &mut DatabaseHandle,
     ) -> Result<(), RunError> {
+        #[cfg(dnp3_verif)]
+        crate::verif::probe::outstation_idle();
+
         // handle a request fragment if present
         self.handle_one_request_from_idle(io, reader, writer, database)
             .await?;
